@@ -1588,8 +1588,21 @@ func selectResponse(m *spec.Method, result any) *spec.Response {
 
 
 func sameNestedTypeTwoViews(d *spec.Design, x *spec.UserType) bool {
-	if x == nil {
+	return sameNestedTypeTwoViewsRec(d, x, map[string]bool{})
+}
+
+func sameNestedTypeTwoViewsRec(d *spec.Design, x *spec.UserType, seenT map[string]bool) bool {
+	if x == nil || seenT[x.Name] {
 		return false
+	}
+	seenT[x.Name] = true
+	// the same shape one level down (a nested result type that itself holds the two attributes)
+	for _, f := range x.Attr.Type.Fields {
+		if f.Type.Kind == spec.User {
+			if nu := d.UserType(f.Type.Name); nu != nil && nu.IsResult && sameNestedTypeTwoViewsRec(d, nu, seenT) {
+				return true
+			}
+		}
 	}
 	for _, vw := range append([]*spec.View{nil}, x.Views...) {
 		seen := map[string]string{}
